@@ -214,6 +214,9 @@ def evaluate(case: Dict[str, Any], obs: Optional[model.Observed] = None) -> List
                 if closest <= cutoff:
                     tangled.update((gi, gj))
 
+        sup_names = [s for s in (rule.get("sup") or []) if s in by_name]
+        sup_info: Dict[str, Any] = {"sup_groups": {s: rule_chains[s] for s in sup_names}} if sup_names else {}
+
         # -- every protocluster holds anchors, and exactly one maximal group of them
         for proto, mine in zip(protos, inside):
             emit("no-protocluster-without-anchor", bool(mine),
@@ -225,7 +228,7 @@ def evaluate(case: Dict[str, Any], obs: Optional[model.Observed] = None) -> List
                 continue
             emit("chains-maximal", mine in groups,
                  f"rule {name} cutoff {cutoff}: core {proto['core_parts']} holds anchors {mine}; "
-                 f"maximal groups are {groups}", rule=name, genes=mine)
+                 f"maximal groups are {groups}", rule=name, genes=mine, groups=groups, **sup_info)
 
         # -- per maximal group: presence, core, superiors
         for gi, group in enumerate(groups):
@@ -253,19 +256,21 @@ def evaluate(case: Dict[str, Any], obs: Optional[model.Observed] = None) -> List
             if status == "drop":
                 emit("dropped-when-superior-covers", not matching,
                      f"rule {name}: group {group} core {variants} lies inside a core of a superior "
-                     f"{sups} but is reported {[p['core_parts'] for p in matching]}", rule=name, genes=group)
+                     f"{sups} but is reported {[p['core_parts'] for p in matching]}", rule=name, genes=group,
+                     groups=groups, **sup_info)
                 continue
             if status == "keep" and sups:
                 emit("kept-unless-superior-covers", len(matching) >= 1,
                      f"rule {name}: group {group} is covered by no protocluster of {sups} but none of "
-                     f"{reported} reports it", rule=name, genes=group)
+                     f"{reported} reports it", rule=name, genes=group, groups=groups, **sup_info)
             elif status == "keep":
                 emit("one-protocluster-per-chain", len(matching) == 1,
                      f"rule {name} cutoff {cutoff}: group {group} reported {len(matching)} times; cores "
-                     f"{reported} hold {inside}", rule=name, genes=group)
+                     f"{reported} hold {inside}", rule=name, genes=group, groups=groups, **sup_info)
             if sups:
                 emit("one-protocluster-per-chain", len(matching) <= 1,
-                     f"rule {name}: group {group} reported {len(matching)} times", rule=name, genes=group)
+                     f"rule {name}: group {group} reported {len(matching)} times", rule=name, genes=group,
+                     groups=groups, **sup_info)
             for proto in matching:
                 if has_ext:
                     needed = geo.union(list(group) + sorted(must[gi]))
@@ -275,7 +280,7 @@ def evaluate(case: Dict[str, Any], obs: Optional[model.Observed] = None) -> List
                     emit("extenders-core", good,
                          f"rule {name} cutoff {cutoff} extenders {rule['ext']}: group {group}, must admit "
                          f"{sorted(must[gi])}, may admit {sorted(may[gi])}; core {proto['core_parts']}",
-                         rule=name, genes=group)
+                         rule=name, genes=group, may=sorted(may[gi]), groups=groups)
                 else:
                     allowed = [model.span_bases(v, length) for v in variants]
                     emit("core-smallest-span", proto["core"] in allowed,
@@ -287,12 +292,12 @@ def evaluate(case: Dict[str, Any], obs: Optional[model.Observed] = None) -> List
             span = model.bases_to_span(proto["core"], length)
             if span is None or (not circular and len(proto["core_parts"]) != 1):
                 emit("neighbourhood", False, f"rule {name}: core {proto['core_parts']} is not one span",
-                     rule=name, genes=mine)
+                     rule=name, core=proto["core_parts"])
                 continue
             wanted = model.widen(span, nbh, length, circular)
             emit("neighbourhood", proto["loc"] == wanted,
                  f"rule {name} neighbourhood {nbh}: core {proto['core_parts']} -> {proto['loc_parts']}, "
-                 f"wanted bases {describe(wanted, length)}", rule=name, genes=mine)
+                 f"wanted bases {describe(wanted, length)}", rule=name, core=proto["core_parts"])
     return out
 
 
@@ -368,11 +373,16 @@ def line_layout(lens: Sequence[int], gaps: Sequence[int], lead: int, tail: int
 
 
 def cut_points(length: int, spans: Sequence[Sequence[int]], level: int) -> List[int]:
-    """ origins worth choosing on a ring: at gene starts / one base inside / at gene ends, and the
-        middle of the largest gap; level 0: fewer """
+    """ origins worth choosing on a ring. level -1: every gene start, one base inside the first gene, the
+        middle of the free bases; level 0: gene starts, one base inside, gene ends, middle of the free
+        bases; level 1: also one base before each gene end """
     cuts = []
-    for start, end in spans:
-        cuts.extend([start % length, (start + 1) % length, end % length])
+    for index, (start, end) in enumerate(spans):
+        cuts.append(start % length)
+        if level >= 0 or index == 0:
+            cuts.append((start + 1) % length)
+        if level >= 0:
+            cuts.append(end % length)
         if level >= 1:
             cuts.append((end - 1) % length)
     covered = set()
